@@ -8,6 +8,7 @@ import (
 	"strconv"
 	"time"
 
+	"github.com/echovault/sugardb/internal/constants"
 	"github.com/echovault/sugardb/internal/modules/set"
 	ss "github.com/echovault/sugardb/internal/modules/sorted_set"
 	vr "github.com/echovault/sugardb/internal/verifrt"
@@ -175,5 +176,43 @@ func Verif_C19_Expiry() {
 	vr.Assert(!panicked, "C19.expiry.nopanic")
 	s.getValues(verifCtx(0), []string{k})
 	vr.Assert(s.memUsed == c19Fresh(s), "C19.expiry_removal")
+	vr.Reach("end")
+}
+
+// Verif_C19_DeleteThenEvict: under an evicting policy a key that was deleted leaves nothing behind
+// in the eviction caches, so a later eviction pass accounts only for keys that are stored: after
+// the pass the reported figure is still the size of what is left (here: nothing).
+func Verif_C19_DeleteThenEvict() {
+	policies := []string{constants.AllKeysLFU, constants.AllKeysLRU, constants.VolatileLFU, constants.VolatileLRU}
+	policy := policies[vr.Choose("policy", len(policies))]
+	s := c08Server(policy)
+	s.config.MaxMemory = 1 << 50
+	volatile := policy == constants.VolatileLFU || policy == constants.VolatileLRU
+	a, b := vr.Tok("a"), vr.Tok("b")
+	vr.Assume(a != b)
+	set := func(k string) {
+		if volatile {
+			c05Run(s, "SET", k, "v", "EX", "1000")
+		} else {
+			c05Run(s, "SET", k, "v")
+		}
+		vr.Quiesce()
+	}
+	order := vr.Choose("order", 3)
+	if order == 1 {
+		set(b)
+	}
+	set(a)
+	if order == 2 {
+		set(b)
+	}
+	c05Run(s, "DEL", a)
+	vr.Quiesce()
+	vr.Assert(s.memUsed == c19Fresh(s), "C19.evicting.delete_accounted")
+	// now everything has to go
+	s.config.MaxMemory = 1
+	_ = s.adjustMemoryUsage(verifCtx(0))
+	vr.Assert(s.memUsed == c19Fresh(s), "C19.evicting.eviction_accounts_only_for_stored_keys")
+	vr.Assert(s.memUsed >= 0, "C19.evicting.figure_never_negative")
 	vr.Reach("end")
 }
